@@ -13,6 +13,7 @@ const (
 	tkExpression
 	tkCsv
 	tkMustache
+	tkCsvWide // CSV tokenizer configured with a non-Latin separator and quote symbol (TOK=4 only)
 )
 
 type fullTokenizer interface {
@@ -32,6 +33,11 @@ func newTokenizer(kind int) fullTokenizer {
 		t = ctok.NewExpressionTokenizer()
 	case tkCsv:
 		t = csv.NewCsvTokenizer()
+	case tkCsvWide:
+		ct := csv.NewCsvTokenizer()
+		ct.SetFieldSeparators([]rune{'\uff1b', '\t'})
+		ct.SetQuoteSymbols([]rune{'\u00ab', '\u300c'})
+		t = ct
 	default:
 		t = mtok.NewMustacheTokenizer()
 	}
